@@ -1,0 +1,9 @@
+//go:build verif
+
+package srp
+
+// VerifGetInputCheckPassword exposes the deterministic 4-argument variant (client ephemeral supplied by the
+// caller) to the external verification harness (/verif); compiled only with -tags verif.
+func VerifGetInputCheckPassword(password string, srpB []byte, mp *ModPow, random []byte) (*SrpAnswer, error) {
+	return getInputCheckPassword(password, srpB, mp, random)
+}
